@@ -98,7 +98,7 @@ pub fn alias_chars() -> &'static [char] {
     A.get_or_init(|| {
         let mut v = Vec::new();
         for c in ['a', 'b', '0', ' ', '\n', 'é', 'Ω', '€', '中'] {
-            for delta in [0x100u32, 0x10000, 0x100000] {
+            for delta in [0x40u32, 0x100, 0x400, 0x1000, 0x10000, 0x100000] {
                 if let Some(x) = char::from_u32(c as u32 + delta) {
                     v.push(x);
                 }
@@ -108,9 +108,19 @@ pub fn alias_chars() -> &'static [char] {
     })
 }
 
+/// Characters with a special role somewhere (byte order mark, zero width, soft hyphen, the edges
+/// of the ASCII / Latin-1 / BMP ranges, noncharacters, replacement character).
+pub const SPECIALS: &[char] = &[
+    '\u{FEFF}', '\u{200B}', '\u{AD}', '\u{7F}', '\u{80}', '\u{A0}', '\u{FF}', '\u{100}', '\u{FFFD}',
+    '\u{FFFE}', '\u{FFFF}', '\u{D7FF}', '\u{E000}', '\u{10000}', '\u{10FFFF}', '\u{1}', '\u{1B}',
+];
+
 pub fn gen_char(d: &mut Dec) -> char {
     if d.chance(3) {
         return *d.pick(alias_chars());
+    }
+    if d.chance(3) {
+        return *d.pick(SPECIALS);
     }
     if d.chance(180) {
         ALPHABET[d.below(SIMPLE)]
@@ -538,6 +548,8 @@ pub fn gen_input(d: &mut Dec, model: &Model, max_chars: usize) -> String {
             4 => {
                 if d.chance(60) {
                     w.push(*d.pick(alias_chars()));
+                } else if d.chance(40) {
+                    w.push(*d.pick(SPECIALS));
                 } else {
                     w.push(*d.pick(FOREIGN));
                 }
